@@ -251,6 +251,9 @@ class TV:
     def min(self, *a, **k):
         return self._red()
 
+    def take(self, indices, *a, **k):
+        return self.abs_getitem(None, indices if isinstance(indices, (TV, slice, int)) else TV.of(indices))          # a.take(idx) is a[idx]
+
     def sum(self, *a, **k):
         _weighs_all(self, "a sum")
         if self.trans == "LOC":
@@ -758,6 +761,9 @@ class Arr:
     def values(self):
         return self
 
+    def take(self, indices, *a, **k):
+        return self.abs_getitem(None, indices)               # a.take(idx) is a[idx]
+
     def sum(self, *a, **k):
         r = 0
         from .absint import binop
@@ -892,6 +898,7 @@ def const_model():
         return Arr(builtin(it, "abs")(e) for e in x.v) if isinstance(x, Arr) else builtin(it, "abs")(x)
     m.ext["np.abs"] = np_abs
     m.ext["np.absolute"] = np_abs
+    m.builtins["abs"] = lambda x: np_abs(None, x)            # abs(array) is np.abs(array)
     m.ext["np.fabs"] = np_abs
 
     def np_tri(upper):
